@@ -352,8 +352,7 @@ def replay_common(chk, payload, which, e2e_oracle):
         for r in e2e_runs([payload["input"]]):
             e2e_oracle(chk, r)
     else:
-        print("replay: this record names a broken obligation; re-run the check itself")
-        return 1
+        return "RERUN"      # vcheck re-runs the check with the recorded tier and seed and looks for the same violation
     chk.cov["evaluations"] = 1
     chk.cov["distinct_nontrivial"] = 2
     chk.cov["rule"] = "replay of one recorded input"
